@@ -19,10 +19,17 @@ func doReplay(path string) int {
 		fmt.Fprintln(os.Stderr, err)
 		return 2
 	}
-	f, ok := replays[rp.Kind]
+	if f, ok := replays[rp.Kind]; ok {
+		return f(&rp)
+	}
+	// generic replay: show the recorded case, then re-evaluate the property on the current tree (the failing case is
+	// part of the enumerated family, so the check reports it again if it still fails)
+	c, _ := json.MarshalIndent(rp.Case, "", " ")
+	fmt.Printf("property %s\nrecorded violation: %s\ncase: %s\n", rp.Property, rp.What, c)
+	f, ok := checks[rp.Property]
 	if !ok {
-		fmt.Fprintln(os.Stderr, "no replayer for kind", rp.Kind)
+		fmt.Fprintln(os.Stderr, "unknown property", rp.Property)
 		return 2
 	}
-	return f(&rp)
+	return f("quick")
 }
